@@ -146,7 +146,10 @@ def body(ctx):
         if exp_cls not in name and exp_cls not in title and got_cls not in name:
             ctx.fail({'symptom': 'runtime feedback does not name the exception class', 'mode': mode}, case=case,
                      exception_name=name, title=title, want=exp_cls)
-    if exp_line is not None and exp_cls is not None and not compile_fail and entry != 'evaluate-expr':
+    # code that does not compile has no frame of its own: the line is the one CPython's SyntaxError names.  When the
+    # failing file is an imported helper, the import statement of the main file is an equally defensible location
+    # (it is the student line that raised), so that combination is not judged.
+    if exp_line is not None and exp_cls is not None and entry != 'evaluate-expr' and not (compile_fail and entry == 'import'):
         got_line = fb.location.line if fb.location is not None else None
         if got_line != exp_line:
             ctx.fail({'symptom': 'feedback not located on the student line', 'mode': mode, 'entry': entry,
